@@ -81,7 +81,8 @@ PLAN = {
         "replay_runner": "charset", "replay_trace": "Trace_Charset",
     },
     "C07": {
-        "mc": [],
+        "mc": [{"name": "chunked-writer-terminating-on-drop(design alternative)", "tla": "RequestWrite.tla", "cfg": "RequestWrite_closeondrop.cfg", "workers": 4,
+                "expect_violation": "TruncatedNeverTerminated"}],
         "families": [{"gen": ("tlc", {"name": "write-sequences", "tla": "RequestWrite.tla", "cfg": "RequestWrite.cfg", "cfg_thorough": "RequestWrite_thorough.cfg", "workers": 8}),
                       "runner": "loop", "trace": "Trace_SendLoop"},
                      fam("c07_req", runner="loop", trace="Trace_SendLoop"),
